@@ -64,21 +64,22 @@ theorem tie_sql_existence_guards :
     Gen.StoreWrite.sqlDupGuard = "existingTuple, ok := existing[tupleUtils.TupleKeyToString(tk)]; ok" := by
   constructor <;> decide
 
-def memCompareRaw : String :=
-  "record.ConditionName == tk.GetCondition().GetName() && record.ConditionContext.String() == tk.GetCondition().GetContext().String()"
-def memCompareNormalised : String :=
-  "proto.Equal( tupleUtils.NewRelationshipCondition(record.ConditionName, record.ConditionContext), tupleUtils.NewRelationshipCondition(tk.GetCondition().GetName(), tk.GetCondition().GetContext()), )"
-def sqlCompareRaw : String := "proto.Equal(existingTuple.GetKey().GetCondition(), tk.GetCondition())"
-def sqlCompareNormalised : String :=
-  "proto.Equal(existingTuple.GetKey().GetCondition(), tupleUtils.NewRelationshipCondition(tk.GetCondition().GetName(), tk.GetCondition().GetContext()))"
-
 set_option maxRecDepth 8192 in
-/-- the comparison under on_duplicate=ignore is one of the two forms the model knows: the raw one (`condEq`,
-    finding F13) or the one with both sides through `NewRelationshipCondition` (`semCondEq`) -/
+/-- under on_duplicate=ignore both backends compare the stored and the requested condition after
+    `NewRelationshipCondition` (an absent context is the empty context): the fix of finding F13 is in place -/
 theorem tie_condition_comparison :
-    (Gen.StoreWrite.memCondCompare = memCompareRaw ∨ Gen.StoreWrite.memCondCompare = memCompareNormalised) ∧
-    (Gen.StoreWrite.sqlCondCompare = sqlCompareRaw ∨ Gen.StoreWrite.sqlCondCompare = sqlCompareNormalised) := by
+    Gen.StoreWrite.memCondCompare = memCompareNormalisedText ∧ Gen.StoreWrite.sqlCondCompare = sqlCompareNormalisedText := by
   constructor <;> decide
+
+/-- the comparison the source makes (and the correspondence runs the model with) -/
+def srcMemCeq : TupleRec → TupleRec → Bool := ceqOfSource Gen.StoreWrite.memCondCompare memCompareNormalisedText
+def srcSqlCeq : TupleRec → TupleRec → Bool := ceqOfSource Gen.StoreWrite.sqlCondCompare sqlCompareNormalisedText
+
+/-- … is the semantic one -/
+theorem src_comparison_is_semantic : srcMemCeq = semCondEq ∧ srcSqlCeq = semCondEq := by
+  unfold srcMemCeq srcSqlCeq ceqOfSource
+  rw [tie_condition_comparison.1, tie_condition_comparison.2]
+  simp
 
 /-- commands/write.go: "" and "error" select the error behaviour, "ignore" the ignore behaviour, every other word
     is a validation error; Execute validates, parses on_duplicate, parses on_missing, then calls the datastore with
@@ -295,6 +296,15 @@ theorem full_options_table_mem_normalised : FullOptionsTableMem (memWrite semCon
 theorem full_options_table_sql_normalised : FullOptionsTableSql (fun db d w o n => sqlWrite semCondEq genCfg db d w o n none) :=
   fun db dels writes o now hnd hst => sqlWrite_eq_spec semCondEq genCfg tie_sql_all_in_txn.1 db dels writes o now hnd hst
 
+/-- **options_table at full strength (memory)**: memory.Write as the source has it decides exactly like the
+    specification in which "a different condition" is a semantically different one -/
+theorem full_options_table_mem : FullOptionsTableMem (memWrite srcMemCeq) := by
+  rw [src_comparison_is_semantic.1]; exact full_options_table_mem_normalised
+
+/-- **options_table at full strength (sqlite)** -/
+theorem full_options_table_sql : FullOptionsTableSql (fun db d w o n => sqlWrite srcSqlCeq genCfg db d w o n none) := by
+  rw [src_comparison_is_semantic.2]; exact full_options_table_sql_normalised
+
 def wKey : TupleKey := ⟨"doc", "1", "viewer", "user:a"⟩
 /-- doc:1#viewer@user:a with condition c1 and *no* context / with the *empty* context -/
 def wNil : TupleRec := { objType := "doc", objId := "1", relation := "viewer", user := "user:a", condName := "c1", condCtx := none }
@@ -305,7 +315,7 @@ theorem wf_wKey : WfKey wKey := by decide
 theorem reqOK_single (w : TupleRec) (h : WfKey w.key) : ReqOK [] [w] :=
   ⟨by simp, by simpa using h, by simp⟩
 
-/-- **negation witness (memory, finding F13).** With the raw comparison the unchanged memory backend stores the
+/-- **negation witness (memory, finding F13, fixed in /repo 4c23c43).** With the raw comparison the memory backend stores the
     tuple with a nil context and then rejects the same tuple with an empty context under on_duplicate=ignore,
     although the conditions are the same. -/
 theorem not_full_options_table_mem_raw : ¬ FullOptionsTableMem (memWrite condEq) := by
@@ -314,7 +324,7 @@ theorem not_full_options_table_mem_raw : ¬ FullOptionsTableMem (memWrite condEq
   revert this
   decide
 
-/-- **negation witness (sqlite, finding F13).** The stored row reads back with the empty context; the identical
+/-- **negation witness (sqlite, finding F13, fixed).** With the raw comparison: the stored row reads back with the empty context; the identical
     request (nil context) under on_duplicate=ignore is answered with a condition conflict. -/
 theorem not_full_options_table_sql_raw :
     ¬ FullOptionsTableSql (fun db d w o n => sqlWrite condEq genCfg db d w o n none) := by
@@ -349,7 +359,7 @@ theorem specWrite_raw_eq_sem (ord : Bool) (norm : TupleRec → TupleRec) (s : St
       rw [condEq_eq_sem_of_normal (hs e (stored_some_key h).1) (hw w hw')]
   rw [this]
 
-/-- **options_table_partial.** On the unchanged tree the full statement holds whenever no conditional tuple is
+/-- **options_table_partial** (what held before the fix). With the raw comparison the full statement holds whenever no conditional tuple is
     stored or written with an absent context (every context explicitly present, possibly empty) -/
 theorem options_table_mem_partial (s : StoreState) (dels : List TupleKey) (writes : List TupleRec) (o : WriteOpts)
     (now : Nat) (h : ReqOK dels writes) (hs : ∀ t ∈ s.tuples, CtxNormal t) (hw : ∀ w ∈ writes, CtxNormal w) :
